@@ -146,6 +146,11 @@ func c02Specs(tier string) []*h.SeqSpec {
 							}
 						}
 						if !has {
+							// an Accept list without the stored type may be refused, but a pull by digest never serves other content
+							r := w.Get("/v2/"+repo+"/manifests/"+it.Dig, "Accept", strings.Join(acc, ", "))
+							if r.Status == 200 && (string(r.Body) != string(it.Data) || (r.H.Get("Docker-Content-Digest") != "" && r.H.Get("Docker-Content-Digest") != it.Dig)) {
+								vs = append(vs, h.V("digest-pull-serves-that-digest", "other-content-served-under-digest", "%s (%s, stored as %s) pulled by digest with Accept %v answered with other content: %s", n, short(it.Dig), m.ManMT[n], acc, r))
+							}
 							continue
 						}
 						r := w.Get("/v2/"+repo+"/manifests/"+it.Dig, "Accept", strings.Join(acc, ", "))
